@@ -20,7 +20,7 @@ def run(chk):
     quick = chk.tier == "quick"
     r = random.Random(chk.seed)
     base = T.tlc_trees(chk, 4 if quick else 5, 100000, chk.seed)
-    more = T.tlc_trees(chk, 5, 1500, chk.seed) if quick else T.tlc_trees(chk, 8, 12000, chk.seed, which="random")     # beyond 5 nodes: seeded random construction
+    more = T.tlc_trees(chk, 6, 1500, chk.seed, which="random") if quick else T.tlc_trees(chk, 8, 12000, chk.seed, which="random")     # beyond 5 nodes: seeded random construction
     seen = set()
     shapes = []
     for t in base + more:
